@@ -25,6 +25,9 @@ SPEC_DELETE = {("Any", "None"): (True, True), ("Any", "Some"): (True, True),
 
 
 def run(db, chk):
+    preprocess_first_rule(db, chk)
+    packable_pairing_rule(db, chk)
+    split_expectation_rule(db, chk)
     log_mode_rule(db, chk)
     f = db.one(F)
     fl = Flow(f)
@@ -175,3 +178,103 @@ def log_mode_rule(db, chk):
         chk.ob("reference-removed-only-with-AndReference", "commit_inner remove_file@%d" % d.line, not bad,
                "the flag deciding the removal of the reference file can become true without `mode == RefLog::AndReference` (line(s) %s): a log-only edit - the parent of a split deref edit - would delete its symbolic ref" % sorted(set(bad)),
                d.where(), key="log-mode|commit_inner|remove_file")
+
+
+def preprocess_first_rule(db, chk):
+    """edits that dereference a symbolic ref are split by pre_process() into a log-only edit of the symbolic ref and a real edit of its referent.
+    Everything prepare_inner decides from the list of edits afterwards - which names go into the packed-refs transaction, whether packed-refs
+    must be consulted for existing values, which refs are locked - has to see the SPLIT list: the pre_process call dominates those decisions and
+    they are unreachable from its failure edge."""
+    f = db.one(r"^gix_ref::store_impl::file::transaction::prepare::<impl gix_ref::store_impl::file::Transaction<'_, '_>>::prepare_inner$")
+    fl = Flow(f)
+    pre = f.calls_to(r"::pre_process$")
+    users = [c for c in f.calls() if c.is_(r"::packed_transaction$|::assure_packed_refs_uptodate$|::lock_ref_and_apply_change$|packed::Transaction>?::prepare$")]
+    chk.floor("prepare_inner: pre_process / consumers of the edit list", min(len(pre), len(users) // 3), 1)
+    if not pre:
+        return
+    good = fl.result_edges(pre[0])["good"]
+    for u in users:
+        ok = f.dominates(pre[0].block, u.block) and bool(good) and fl.cut_off([u.block], good)
+        chk.ob("edits-split-before-use", "prepare_inner %s@%d" % (u.name.split("::")[-1], u.line), ok,
+               "runs before (or without) the split of dereferenced symbolic-ref edits: the referent's edit is invisible to it (a delete through HEAD leaves the packed referent, expectations are checked against loose refs only)",
+               u.where(), key="preprocess-first|%s" % u.name.split("::")[-1])
+
+
+PACKABLE = r"::is_packable$|::possibly_adjust_name_for_prefixes$"
+
+
+def packable_pairing_rule(db, chk):
+    """PackedRefs::...RemoveLooseSourceReference moves object updates into packed-refs and removes the loose file.  prepare_inner leaves names out
+    of the packed transaction that cannot be packed (HEAD and other pseudo refs, refs/bisect, worktree-private refs: the name filter
+    possibly_adjust_name_for_prefixes).  For exactly those the loose file is the only copy, so the same filter has to decide (a) the
+    `direct_to_packed_refs` argument that suppresses the loose write in prepare, (b) the skipped lock commit and (c) the removal of the loose
+    file in commit_inner for Update edits.  Otherwise an update of a detached HEAD deletes HEAD."""
+    from gx.flow import bool_switch_edges
+    p = db.one(r"^gix_ref::store_impl::file::transaction::prepare::<impl gix_ref::store_impl::file::Transaction<'_, '_>>::prepare_inner$")
+    pfl = Flow(p)
+    filt = p.calls_to(r"::possibly_adjust_name_for_prefixes$")
+    chk.floor("prepare_inner: name filter for the packed transaction", len(filt), 1)
+    lk = p.calls_to(r"::lock_ref_and_apply_change$")
+    chk.floor("prepare_inner: lock_ref_and_apply_change", len(lk), 1)
+    for c in lk:
+        ok = len(c.args) >= 6 and pfl.derives_from_call(c.args[5], PACKABLE)
+        chk.ob("unpackable-refs-stay-loose", "prepare_inner direct_to_packed_refs@%d" % c.line, ok,
+               "the flag that suppresses the loose write does not depend on whether the name can be packed: an object update of HEAD / refs/bisect/* in RemoveLooseSourceReference mode is written nowhere",
+               c.where(), key="packable|prepare_inner")
+    f = db.one(r"^gix_ref::store_impl::file::transaction::commit::.*commit_inner$")
+    fl = Flow(f)
+    tests = f.calls_to(PACKABLE)
+    good = set()
+    for t in tests:
+        e = fl.result_edges(t)
+        good |= e["good"]
+        # a plain bool result: the edges of the switch on it
+        if not e["good"] and t.dest and len(t.dest) == 1:
+            for b in range(len(f.blocks)):
+                tm = f.term(b)
+                if tm[0] == "switch" and "p" in tm[1] and any(r[0] == "call" and r[1] == t.name for r in fl.roots(tm[1], stop_named=False)):
+                    ed = bool_switch_edges(f, b, tm[1]["p"][0])
+                    if ed:
+                        good |= ed[0]
+    # (b) the lock is parked (not committed) only for packable names
+    parks = [(bi, ln) for bi, si, pl, rv, ln, mc in f.assigns() if pl and pl[-1] == ".lock" and rv[0] == "use" and "p" in rv[1]]
+    chk.floor("commit_inner: lock parked for the packed-refs path", len(parks), 1)
+    for bi, ln in parks:
+        chk.ob("unpackable-refs-stay-loose", "commit_inner lock parked@%d" % ln, bool(good) and fl.cut_off([bi], good),
+               "the loose lock of an object update is kept back (and later dropped) although the name may not be packable", "%s:%d" % (f.file, ln), key="packable|commit_inner|park")
+    # (c) the removal flag of Update edits derives from the filter
+    dels = [c for c in f.calls_to(r"std::fs::remove_file$") if fl.derives_from_call(c.args[0], r"::reference_path$")]
+    for d in dels:
+        flags = set()
+        lps = [l for l in f.loops() if d.block in l["body"]]
+        hdr = {min(lps, key=lambda l: len(l["body"]))["header"]} if lps else set()
+        for b in range(len(f.blocks)):
+            tm = f.term(b)
+            if tm[0] == "switch" and "p" in tm[1] and len(tm[1]["p"]) == 1 and f.locals[tm[1]["p"][0]] == "bool" and f.dominates(b, d.block):
+                succ = f.succs(b)
+                if any(d.block in f.reach_from(x, avoid=hdr) or x == d.block for x in succ) and not all(d.block in f.reach_from(x, avoid=hdr) or x == d.block for x in succ):
+                    flags.add(tm[1]["p"][0])
+        ok = bool(flags) and any(fl.derives_from_call({"p": [L]}, PACKABLE) for L in flags)
+        chk.ob("unpackable-refs-stay-loose", "commit_inner remove_file@%d" % d.line, ok,
+               "the loose reference of an Update edit is removed without asking whether the name went into packed-refs: HEAD (detached), refs/bisect/* vanish", d.where(), key="packable|commit_inner|remove")
+
+
+def split_expectation_rule(db, chk):
+    """a deref edit on a symbolic ref is split into a log-only edit of the symbolic ref and the real edit of its referent.  The expected previous
+    value is about the REFERENT (git update-ref [-d] HEAD <old> compares <old> with the branch).  So in both arms of the split (Update and Delete)
+    the child's `expected` is MOVED out of the parent - std::mem::replace/take, leaving PreviousValue::Any behind - and never copied, or the
+    log-only parent compares the symbolic ref itself with an object id and the transaction can never succeed.  Sibling agreement of the arms."""
+    f = db.one(r"RefEditsExt<E>>::extend_with_splits_of_symbolic_refs$")
+    fl = Flow(f)
+    n = 0
+    for bi, si, pl, rv, ln, mc in f.assigns():
+        if not (rv[0] == "agg" and rv[1] == "adt" and rv[2].endswith("transaction::Change") and "expected" in rv[5]):
+            continue
+        n += 1
+        op = rv[4][rv[5].index("expected")]
+        calls_ = {r[1] for r in fl.roots(op, stop_named=False) if r[0] == "call"}
+        moved = any(re.search(r"mem::(replace|take)$", c) for c in calls_)
+        chk.ob("split-moves-expectation-to-referent", "extend_with_splits Change::%s@%d" % (rv[3], ln), moved,
+               "the referent's edit gets a copy of the expectation (%s) while the log-only parent keeps it: the parent compares the symbolic ref with an object id and the transaction always fails" % (sorted(x.split("::")[-1] for x in calls_)[:3],),
+               "%s:%d" % (f.file, ln), key="split-expectation|%s" % rv[3])
+    chk.floor("extend_with_splits: child edits built (Update and Delete arm)", n, 2)
